@@ -359,6 +359,8 @@ class StmtMixin:
         if step != 1:
             inr = z3.And(inr, (i - start) % step == 0)
         newv = z3.Lambda([i], z3.If(inr, val, cur[i]))
+        if getattr(self, "materialize", False) and st.get(base).base is None:
+            newv = self.mat(st, n, newv, h.kind)
         self.write_all(base, newv, st)
 
     def coerce_term(self, t, kfrom, kto):
